@@ -270,7 +270,9 @@ def _oracle(ctx, server, jobs, failing, outcomes, n_jobs, reps, elapsed, timeout
             if (sjob0 is not None and (sjob0.terminal_at is None or sjob0.terminal_at > t_out or sjob0.state == "CANCELLED")
                     and not server.breaks and not server.clean_closes and not server.injected_unary
                     and not server.open_failures and jname not in server.cancel_requests
-                    and sjob0.created_step >= 0):
+                    and sjob0.created_step >= 0 and jname not in server.created_by_unary):
+                # (only the stream path promises this: a job that EngineJob re-created through the unary RPCs after a
+                # stream error is polled, and giving up on a poll cancels nothing remotely)
                 raise Violation(f"{P}-CANCEL-LOST",
                                 f"{job_id}: its caller stopped waiting for results_async() after "
                                 f"{t_out - t_start:.1f}s (deadline of the awaiting task) while the job was running on "
